@@ -431,6 +431,23 @@ def run_cfg_rest(ctx, p, cfg):
 
     with ctx.rule("A4", "padding happens", cfg) as r:
         f = p.fn(CHUNK_ENCODE)
+        # a formatted chunk always goes through its width writers: no return on the Formatted arm bypasses the chunk's encode call
+        # (and with it the finish() that pads) — an empty or disabled chunk still owes its minimum width
+        top = None
+        for blk in f.blocks:
+            if blk["term"]["k"] == "switch" and blk["id"] in f.reachable_blocks():
+                si = SwitchInfo(f, blk["id"])
+                d = strip(si.discr)
+                if d[0] == "discr" and deep_strip(d[1]) == ("param", 1) and "Formatted" in set((si.variants or {}).values()):
+                    top = si
+                    break
+        if top is None or top.target_of("Formatted") is None:
+            raise ShapeUnrecognised("no match on the chunk kind in Chunk::encode")
+        encs = {c.block for c in f.calls(FENCODE)}
+        rets_ = {b for b, e in q.ret_assignments(f) if q.classify_ret(e) != "err" and not q.is_from_residual(e)}
+        skipped = q.skipping_paths(f, top.target_of("Formatted"), encs, rets_)
+        r.require(not skipped, "formatted-chunk-always-encoded", fn=f, detail="every non-error return on the Formatted arm passed FormattedChunk::encode",
+                  fail_detail="a return on the Formatted arm (bb%s) is reached without encoding the chunk: its width writers never run, so a minimum width is not padded" % sorted(skipped))
         fins = [c for c in f.calls() if c.callee in p.fns and c.callee.endswith("::finish")]
         r.require(len(fins) == 4, "finish-sites", fn=f, detail="finish() call sites: %d (2 alignments x with/without max)" % len(fins))
         for c in f.calls(FENCODE):
